@@ -25,7 +25,7 @@ func (c *Case) ID() string {
 	return fmt.Sprintf("%s[%s] fault=%s@%d", c.Wrapper, c.Nodes, c.Fault, c.At)
 }
 
-var wrappers = []string{"flat", "for", "if", "with", "autoescape", "ifchanged", "spaceless", "filter", "filter-length", "for-filter-length", "include", "include-lazy", "macro", "extends", "for-include", "ssi-parsed", "for-empty", "for-reversed", "ifequal", "block", "import-macro", "if-elif", "extends-own-options", "extends-2-own-options", "macro-reads-set", "ifchanged-gap", "for-macro-reads-loop", "with-swap", "ctx-call"}
+var wrappers = []string{"flat", "for", "if", "with", "autoescape", "ifchanged", "spaceless", "filter", "filter-length", "for-filter-length", "include", "include-lazy", "macro", "extends", "for-include", "ssi-parsed", "for-empty", "for-reversed", "ifequal", "block", "import-macro", "if-elif", "extends-own-options", "extends-2-own-options", "macro-reads-set", "ifchanged-gap", "for-macro-reads-loop", "with-swap", "ctx-call", "caller-values", "exports-macro"}
 
 // build returns the file set, the name of the entry file and the expected fault-free output.
 func build(wrapper, nodes string) (files map[string]string, expected string, ticks int) {
@@ -90,6 +90,15 @@ func build(wrapper, nodes string) (files map[string]string, expected string, tic
 	case "with":
 		files["/main"] = "<{% with a=1 %}" + b + "{% endwith %}>"
 		expected = "<" + render() + ">"
+	case "exports-macro":
+		// the executed template exports a macro: a context key of that name is refused (fault badctx), by every entry
+		// point and every time
+		files["/main"] = "{% macro greet() export %}g{% endmacro %}<" + b + ">{{ greet() }}"
+		expected = "<" + render() + ">g"
+	case "caller-values":
+		// values the caller keeps and hands to every execution (a list of *pongo2.Value): printed plainly and as markup
+		files["/main"] = "{{ cvals|first }}/{{ cvals|first|safe }}/{{ cvals|last }}" + b + "{{ cvals.0 }}"
+		expected = "&lt;b&gt;/<b>/&lt;i&gt;" + render() + "&lt;b&gt;"
 	case "ctx-call":
 		// context functions that take the execution context implicitly, with 3, 5 and 6 written arguments
 		files["/main"] = "{{ cf3(1, \"s\", 3) }}" + b + "{{ cf5(1, 2, 3, 4, 5) }}{{ cf6(1, 2, 3, 4, 5, 6) }}"
@@ -247,10 +256,12 @@ func (c *Case) Exec(t *eng.T) {
 	if c.Fault != "none" {
 		t.Nontrivial()
 	}
+	callerValues := []*pongo2.Value{pongo2.AsValue("<b>"), pongo2.AsValue("<i>")} // ONE list for all executions of the case
 	var mkctx func() pongo2.Context
 	mkctx = func() pongo2.Context {
 		n := 0
 		return pongo2.Context{
+			"cvals": callerValues,
 			"two": []int{1, 2}, "yes": true, "incname": "inc", "gap": []int{1, 0, 1}, "p": 1, "q": 2, "r": 3,
 			"cf3": func(ec *pongo2.ExecutionContext, a int, b string, c int) string { return fmt.Sprintf("%d/%s/%d", a, b, c) },
 			"cf5": func(ec *pongo2.ExecutionContext, a, b, c, d, e int) string { return fmt.Sprint(a, b, c, d, e)[0:0] + fmt.Sprintf("%d%d%d%d%d", a, b, c, d, e) },
@@ -270,7 +281,11 @@ func (c *Case) Exec(t *eng.T) {
 		inner := mkctx
 		mkctx = func() pongo2.Context {
 			x := inner()
-			x["user-name"] = "x"
+			if c.Wrapper == "exports-macro" {
+				x["greet"] = "x" // clashes with the exported macro
+			} else {
+				x["user-name"] = "x"
+			}
 			return x
 		}
 		wantFail = true
@@ -367,6 +382,23 @@ func (c *Case) Exec(t *eng.T) {
 		}
 	}
 	// the four entry points one after the other on ONE compiled template (fault-free runs): still the same bytes
+	if c.Fault == "badctx" {
+		// ... and on ONE compiled template the refusal does not wear off
+		if shared := fresh(); shared != nil {
+			for round := 0; round < 2; round++ {
+				_, e0 := shared.Execute(mkctx())
+				_, e1 := shared.ExecuteBytes(mkctx())
+				e2 := shared.ExecuteWriter(mkctx(), &faultWriter{})
+				e3 := shared.ExecuteWriterUnbuffered(mkctx(), &faultWriter{})
+				for i, e := range []error{e0, e1, e2, e3} {
+					if e == nil {
+						t.Fail(key0(c, "shared-template:invalid-context-accepted"), "%s: round %d, entry point %d of Execute/ExecuteBytes/ExecuteWriter/ExecuteWriterUnbuffered on one compiled template accepts the invalid context", c.ID(), round+1, i+1)
+						return
+					}
+				}
+			}
+		}
+	}
 	if c.Fault == "none" {
 		if shared := fresh(); shared != nil {
 			var outs [4]string
